@@ -145,8 +145,12 @@ package scanner
 //@ func stripCR
 //@   assigns nothing
 //@   ensures len(result) <= len(b) && fresh(result)
+//@   ensures [head1] len(b) >= 1 && b[0] != '\r' ==> len(result) >= 1 && result[0] == b[0]
+//@   ensures [head2] len(b) >= 2 && b[0] != '\r' && b[1] != '\r' ==> len(result) >= 2 && result[1] == b[1]
 //@ loop stripCR#1
 //@   invariant 0 <= i && i <= rangeindex + 1 && len(c) == len(b) && fresh(c)
+//@   invariant [head1] rangeindex >= 0 && b[0] != '\r' ==> i >= 1 && c[0] == b[0]
+//@   invariant [head2] rangeindex >= 1 && b[0] != '\r' && b[1] != '\r' ==> i >= 2 && c[1] == b[1]
 //@
 //@ func (*Scanner).scanRawString
 //@   requires inv(s) && s.offset >= 1
@@ -174,6 +178,8 @@ package scanner
 //@   assigns s.ch, s.offset, s.rdOffset, s.lineOffset, s.ErrorCount
 //@   ensures inv(s) && s.offset >= old(s.offset)
 //@   ensures [len] len(result) <= s.offset - (old(s.offset)-1)
+//@   ensures [shape] s.src[old(s.offset)-1] != '\r' ==> len(result) >= 1 && result[0] == s.src[old(s.offset)-1]
+//@   ensures [shape2] s.src[old(s.offset)-1] == '/' && (old(s.ch) == '/' || old(s.ch) == '*') ==> len(result) >= 2 && result[1] == old(s.ch)
 //@ loop (*Scanner).scanComment#1
 //@   invariant inv(s) && s.offset > old(s.offset) && offs == old(s.offset) - 1 && numCR >= 0 && s.offset - offs >= numCR + 1
 //@   decreases len(s.src) - s.offset
@@ -221,6 +227,7 @@ package scanner
 //@   ensures [op-text] IsOperator(tok) && tok != token.SEMICOLON ==> s.offset == fileOff(s, pos) + len(token.tokens[tok]) &&
 //@             string(s.src[fileOff(s, pos):s.offset]) == token.tokens[tok]
 //@   ensures [comment-len] tok == token.COMMENT ==> len(lit) <= s.offset - fileOff(s, pos)
+//@   ensures [comment-shape] tok == token.COMMENT ==> len(lit) >= 1 && (lit[0] == '/' ==> len(lit) >= 2)
 //@   ensures [gap-is-space] s.mode & ScanComments != 0 && old(s.unitVal) == "" ==>
 //@             (forall k in old(s.offset)..fileOff(s, pos) :: s.src[k] == ' ' || s.src[k] == '\t' || s.src[k] == '\n' || s.src[k] == '\r')
 //@ loop (*Scanner).Scan#1
